@@ -30,3 +30,6 @@ def run(repo, res, tier):
     # repeated name the value (and so the kind: block or assignment) of its first occurrence
     from .. import hookrules as _hk12
     _hk12.rule_reindex(repo, res)
+    # the dialect's grammar is the encoder's own, whatever decoder the caller hands over
+    from .. import hookrules as _hk12b
+    _hk12b.rule_ctor_default(repo, res)
